@@ -1,0 +1,27 @@
+//go:build verif
+
+package phase0
+
+// Contracts for govc (see /verif/DESIGN.md). Comment-only: no declarations.
+
+//@ sort AttDataT = AttestationData
+//@ sort RootT = common.Root
+// hash-tree-root of an AttestationData: computed by ztyp, uninterpreted function of the value
+//@ ufun att_data_root(AttDataT) RootT
+
+//@ func (p *AttestationData) HashTreeRoot(hFn) r
+//@   trusted
+//@   opt noalloc
+//@   requires p != nil
+//@   ensures r == att_data_root(*p)
+
+// SingleParticipant: assumed (its loop carries an interior pointer through a
+// variable, which the engine cannot havoc); the contract is the documented behaviour.
+//@ func (cb AttestationBits) SingleParticipant(committee) (r, err)
+//@   trusted
+//@   opt noalloc
+//@   ensures err == nil ==> bl_len(cb) == len(committee) && (exists i :: 0 <= i && i < len(committee) && bl_bit(cb, i) && r == committee[i])
+
+//@ func (a *AttesterSlashing) HashTreeRoot(spec, hFn) r
+//@   trusted
+//@   opt noalloc
